@@ -18,7 +18,7 @@ ASSUMPTIONS = [
     'signatures are a free model: verify(data, sig) is true iff sig == b"SIG" + key id + data (unforgeable, injective); key decoding and '
     'authorized_keys lookup are stubs returning model keys - real signature algorithms are C16, authorized_keys matching is C17',
     'GSS and host-based methods are not driven (their contexts live in C libraries); reload_config is a no-op',
-    'at most 2 USERAUTH requests and 1 keyboard-interactive response per run',
+    'at most 2 USERAUTH requests and 1 keyboard-interactive response per run; certificates are real SSHOpenSSHCertificate instances built field by field (their real validate() runs) around model keys',
 ]
 
 USERS = ['alice', 'bob']
@@ -89,7 +89,7 @@ class Owner:
         return lambda *a, **k: None
 
 
-def _server(loop, owner):
+def _server(loop, owner, rc=0):
     conn = mkconn(True, loop=loop, password_auth=True, kbdint_auth=True, public_key_auth=True)
     out = instrument(conn)
     conn._owner = owner
@@ -103,6 +103,11 @@ def _server(loop, owner):
     out.sent = sent
 
     async def reload_config():
+        # the real one awaits run_in_executor: it takes rc loop steps here
+        for _ in range(rc):
+            fut = loop.create_future()
+            loop.call_soon(fut.set_result, None)
+            await fut
         return None
 
     conn.reload_config = reload_config
@@ -337,6 +342,162 @@ def after_success(which: int, final: bool) -> bool:
     return not out.closed
 
 
+def stale_response(u2: int, m2: int, vA: bool, vB: bool, sA: bool, sB: bool, gap: int, s1: int, s2: int, rc: int) -> bool:
+    """keyboard-interactive for alice is challenged; before answering, a
+    second request (alice or bob; password / none / keyboard-interactive)
+    arrives and alice's INFO_RESPONSE follows it after 0..2 loop steps.  The
+    answer belongs to a superseded attempt: it must never authenticate the
+    connection as a user for whom no validator accepted a credential."""
+    loop = MiniLoop()
+    user2 = pick(USERS, u2)
+    owner = Owner(loop, {'alice': vA, 'bob': vB}, {'alice': sA, 'bob': sB})
+    saved = C.asyncio
+    C.asyncio = AsyncioShim(loop)
+    try:
+        conn, out = _server(loop, owner, conc(rc, 0, 3))
+        deliver(conn, _kbd('alice'))
+        loop.run(10)
+        if 60 not in out.sent:
+            return False
+        if m2 == 0:
+            deliver(conn, _pw(user2))
+        elif m2 == 1:
+            deliver(conn, _req(user2, 'none', b''))
+        else:
+            deliver(conn, _kbd(user2))
+        loop.run(gap)
+        nchal = out.sent.count(60)
+        if not out.closed:
+            deliver(conn, frame(Byte(61) + UInt32(1) + String('123456')))
+        loop.run(s1)
+        for u in USERS:
+            fut = owner.futs.pop(u, None)
+            if fut is not None and not fut.done():
+                fut.set_result(None)
+        loop.run(s2 + 40)
+        for u in USERS:
+            fut = owner.futs.pop(u, None)
+            if fut is not None and not fut.done():
+                fut.set_result(None)
+        loop.run(40)
+    finally:
+        C.asyncio = saved
+    if loop.exceptions:
+        return False
+    nsucc = out.sent.count(52)
+    if conn._auth_complete:
+        if conn._username not in owner.ok or conn.get_extra_info('username') != conn._username:
+            return False
+        return nsucc == 1 and owner.completed == 1
+    return nsucc == 0 and owner.completed == 0
+
+
+class ModelCert:
+    pass
+
+
+def _mkcert(ca, princ, ctype, after, before, key):
+    cert = C.SSHOpenSSHCertificate.__new__(C.SSHOpenSSHCertificate)
+    cert._cert_type = ctype
+    cert._valid_after = after
+    cert._valid_before = before
+    cert.principals = list(princ)
+    cert.signing_key = ca
+    cert.key = key
+    cert.is_x509_chain = False
+    cert.options = {}
+    return cert
+
+
+CPRINC = [[], ['alice'], ['bob'], ['ops'], ['ops', 'bob']]
+
+
+def cert_user(ca1: int, pr1: int, u1: int, ok1: bool, ca2: int, pr2: int, u2: int, entry_pr: bool, owner_ca: bool,
+              t2: int, ok2: bool) -> bool:
+    """Two successive publickey requests carrying OpenSSH user certificates.
+    CA1 is trusted by an authorized_keys cert-authority entry (optionally with
+    principals="ops"), CA2 by the application's validate_ca_key.  Access is
+    granted for a request iff the certificate's own CA is trusted, the
+    certificate is a currently valid user certificate, and it covers the
+    requested user (or, for the principals= entry, lists one of the entry's
+    principals); nothing an earlier request left behind may change that."""
+    from asyncssh import public_key as PK
+    loop = MiniLoop()
+    owner = Owner(loop, {}, {})
+    CA = [ModelKey(b'CA1'), ModelKey(b'CA2'), ModelKey(b'CA3')]
+    owner.validate_ca_key = lambda user, key: owner_ca and key.kid == b'CA2'
+    owner.validate_public_key = lambda user, key: False
+    kA, kB = ModelKey(b'KEY-A'), ModelKey(b'KEY-B')
+    c1 = _mkcert(CA[ca1], pick(CPRINC, pr1), PK.CERT_TYPE_USER, 0, 10 if ok1 else 0, kA)
+    now = 1
+    c2 = _mkcert(CA[ca2], pick(CPRINC, pr2), t2, 0, 3 if ok2 else 1, kB)
+    certs = {b'CERT-1': c1, b'CERT-2': c2}
+    saved = (C.asyncio, C.decode_ssh_public_key, C.decode_ssh_certificate, PK.time)
+
+    def dec_cert(data, *a):
+        if data in certs:
+            return certs[data]
+        raise C.KeyImportError('no')
+
+    def dec_key(data):
+        raise C.KeyImportError('no')
+
+    class Clock:
+        def time(self):
+            return now
+
+    C.asyncio = AsyncioShim(loop)
+    C.decode_ssh_public_key, C.decode_ssh_certificate, PK.time = dec_key, dec_cert, Clock()
+    try:
+        conn, out = _server(loop, owner)
+
+        class AK:      # authorized_keys model: cert-authority[,principals="ops"] CA1
+            def validate(self, key, host, addr, principals=None, ca=False):
+                if ca and key.kid == b'CA1':
+                    if entry_pr:
+                        return {'principals': ['ops']} if 'ops' in (principals or []) else None
+                    return {}
+                return None
+
+            def __bool__(self):
+                return True
+
+        conn._authorized_client_keys = AK()
+        users = [pick(USERS, u1), pick(USERS, u2)]
+        for i, (blob, key) in enumerate(((b'CERT-1', kA), (b'CERT-2', kB))):
+            if conn._auth_complete or out.closed:
+                break
+            prefix = Byte(50) + String(users[i]) + String('ssh-connection') + String('publickey') + Boolean(True) + \
+                String(b'model') + String(blob)
+            sig = b'SIG' + key.kid + String(b'SESSION') + prefix
+            deliver(conn, _req(users[i], 'publickey', Boolean(True) + String(b'model') + String(blob) + String(sig)))
+            loop.run(40)
+    finally:
+        C.asyncio, C.decode_ssh_public_key, C.decode_ssh_certificate, PK.time = saved
+    if loop.exceptions:
+        return False
+
+    def grant(cert, user):
+        if not (cert._cert_type == PK.CERT_TYPE_USER and cert._valid_after <= now < cert._valid_before):
+            return False
+        covers = (not cert.principals) or user in cert.principals
+        if cert.signing_key.kid == b'CA1':
+            if entry_pr:
+                return 'ops' in cert.principals
+            return covers
+        if cert.signing_key.kid == b'CA2':
+            return owner_ca and covers
+        return False
+
+    g1 = grant(c1, users[0])
+    g2 = grant(c2, users[1])
+    if g1:
+        return conn._auth_complete and conn._username == users[0] and out.sent.count(52) == 1
+    if g2:
+        return conn._auth_complete and conn._username == users[1] and out.sent.count(52) == 1
+    return not conn._auth_complete and out.sent.count(52) == 0
+
+
 OBLIGATIONS = [
     Ob('race', race,
        sym=dict(m1=R(0, 2), u2=R(0, 1), m2=R(0, 2), vA=B, vB=B, sA=B, sB=B, order=R(0, 1),
@@ -352,6 +513,25 @@ OBLIGATIONS = [
        bounds='2 pipelined requests (first: alice by password, keyboard-interactive incl. its response, or publickey with a valid signature; second: alice/bob by password, none or '
               'keyboard-interactive); symbolic verdicts, each validator immediate or waiting on a back-end future; second request before/after the '
               'first validator completes; 0..2 (thorough 0..6) loop steps between events; FIFO scheduling'),
+    Ob('stale_response', stale_response,
+       sym=dict(u2=R(0, 1), m2=R(0, 2), vA=B, vB=B, sA=B, sB=B, gap=R(0, 2), s1=R(0, 2), s2=R(0, 1), rc=R(0, 3)),
+       shards=dict(m2=[0, 1, 2], u2=[0, 1], rc=[0, 1, 3]), timeout=400, thorough_timeout=900,
+       thorough_shards=dict(m2=[0, 1, 2], u2=[0, 1], rc=[0, 1, 2, 3]),
+       thorough_sym=dict(gap=R(0, 4), s1=R(0, 4), s2=R(0, 3)),
+       functions=[C.SSHConnection._process_userauth_request, C.SSHConnection.process_packet, AU._ServerKbdIntAuth._process_info_response,
+                  AU.Auth.cancel, AU.Auth.create_task, C.SSHConnection._finish_userauth],
+       bounds='keyboard-interactive challenge for alice, then a superseding request (alice/bob; password/none/keyboard-interactive) followed after 0..2 '
+              '(thorough 0..5) loop steps by the answer to the old challenge; reload_config (run_in_executor in the real code) taking 0..3 loop steps on a user switch; symbolic verdicts and validator completion times'),
+    Ob('cert_user', cert_user,
+       sym=dict(ca1=R(0, 2), pr1=R(0, 3), ok1=B, ca2=R(0, 2), pr2=R(0, 3), u2=R(0, 1), entry_pr=B, owner_ca=B,
+                t2=R(1, 2), ok2=B),
+       shards=dict(ca1=[0, 1, 2], ca2=[0, 1, 2], entry_pr=[False, True]), fixed=dict(u1=0), timeout=400, thorough_timeout=1200,
+       thorough_sym=dict(u1=R(0, 1), pr1=R(0, 4), pr2=R(0, 4)),
+       functions=[C.SSHServerConnection._validate_openssh_certificate, C.SSHServerConnection._validate_client_certificate,
+                  C.SSHServerConnection.validate_public_key, C.SSHServerConnection.get_key_option, AU._ServerPublicKeyAuth._start,
+                  'asyncssh.public_key.SSHOpenSSHCertificate.validate'],
+       bounds='2 successive publickey requests with OpenSSH certificates: CA in {authorized_keys CA (with/without principals="ops"), application-trusted CA, '
+              'unknown CA}, 4 (thorough 5) principal lists each, first request for alice (thorough alice/bob), second for alice/bob, each certificate valid or expired (window arithmetic is C04.cert_validate), second of user or host type'),
     Ob('pk_binding', pk_binding,
        sym=dict(flaw=R(0, 8), probe_first=B, trailing=B), timeout=150,
        functions=[AU._ServerPublicKeyAuth._start, C.SSHServerConnection.validate_public_key,
